@@ -40,6 +40,21 @@ def main():
     if not any("C03_Layer" in v["name"] for v in r.violations):
         print("SELFTEST FAILED: corrupted lock history accepted", r.out[-500:])
         return 1
+    # 5. activation rows: a genuine one is accepted, corrupted ones (candidate becomes manager after "not held"; a manager
+    #    that asked although its timer forbids asking; a timer that appears from nowhere) are rejected by DaemonRows
+    good = {"kind": "mode", "scn": "selftest", "by": "h2", "state": "Candidate", "next": "Manager", "locks": [True], "released": False,
+            "zk": 3, "maint": {"st": "absent", "paused": False, "leave": False, "light": False}, "mfile": False, "mgrsw": True,
+            "lq0": -1, "lq1": -1, "t0": 1000, "t1": 1000, "ed": 30000, "ad": 45000, "ended": "exit", "owner": "h2", "count": 1}
+    bad1 = dict(good, locks=[False])
+    bad2 = dict(good, state="Manager", next="Manager", lq0=1000, lq1=1000, t0=40000, t1=40000)
+    bad3 = dict(good, state="Candidate", next="Candidate", locks=[False], lq1=900)
+    r = vlib.tlc(ctx, "DaemonRows", cfg="DaemonRows.cfg", files={"rows.ndjson": "".join(json.dumps(x) + "\n" for x in (good, bad1, bad2, bad3))},
+                 cont=True, workers=1)
+    got = {(v["name"], int(v["state"]["i"])) for v in r.violations}
+    want = {("C03_ManagerModeNeedsLock", 2), ("Conf_Mode", 2), ("Conf_Mode", 3), ("Conf_Timer", 4)}
+    if any(i == 1 for _, i in got) or not want <= got:
+        print("SELFTEST FAILED: activation rows misjudged by DaemonRows", sorted(got), r.out[-500:])
+        return 1
     print("selftest ok")
     return 0
 
